@@ -467,17 +467,31 @@ pub fn check_run(
                     ccfg.log_cache_capacity = None;
                     let spec = crate::ops::Spec { prop: prop.to_string(), run_seed: c.k as u64, cfg: ccfg, ops, sched: crate::ops::Sched::Default, faults: vec![], flush_batch: 1024, lower_term_reappend: false };
                     let or = crate::exec::Oracles { prop: prop.to_string(), model_eq: true, restart_eq: true, ..Default::default() };
-                    // the recovered directory is what the first open left behind
-                    res.after.write_to(img_dir);
-                    let cont = crate::exec::run_spec_in(&spec, &or, img_dir, facts.prefix[j].clone());
+                    // the continuation runs on the very instance that performed the recovery (a fresh
+                    // open of the already repaired directory would hide what recovery left in memory)
+                    let (_r2, kept) = eval_image(&img, &cfg, img_dir, true);
+                    let Some(kept) = kept else { continue };
+                    let cont = crate::exec::continue_on(kept, &spec, &or, img_dir, facts.prefix[j].clone());
+                    if std::env::var("SIM_DEBUG_CONT").is_ok() {
+                        eprintln!("--- continuation after {:?}: ops {:?}", c, spec.ops.iter().map(|o| o.short()).collect::<Vec<_>>());
+                        eprintln!("    image: {:?}", img.files.iter().map(|(n, f)| (n.clone(), f.data.len(), f.synced)).collect::<Vec<_>>());
+                        for (i, e) in cont.ep.trace.iter().enumerate() {
+                            match e {
+                                Ev::Fs(f) => eprintln!("    {i:3} {} {:?} {} off={} len={} res={}", cont.ep.thread_names.get(f.tid as usize).cloned().unwrap_or_default(), f.op, f.file, f.off, f.len, f.res),
+                                Ev::H(h) => eprintln!("    {i:3}      {h:?}"),
+                            }
+                        }
+                        eprintln!("    violations: {:?}", cont.violations.iter().map(|v| (&v.class, &v.detail)).collect::<Vec<_>>());
+                    }
                     for v in &cont.violations {
                         push(&mut viols, format!("continuation:{}", v.class), format!("after recovery from crash {:?} (state = S_{j}): op #{}: {}", c, v.op_index, v.detail), c.clone());
                     }
                     // second-level: the machine loses power while the recovered process runs. Bytes
                     // the dead process wrote but never synced are still only in the page cache.
                     if cont.violations.is_empty() && cont.aborted.is_none() {
+                        // the continuation's trace starts with the recovery's own calls
                         let base0 = if c.kind == CrashKind::Process { img.clone() } else { img.clone().all_durable() };
-                        let base = Disk::replay(&base0, &res.trace, res.trace.len());
+                        let base = base0.clone();
                         let cfacts = run_facts(&cont);
                         let ccfg_at = |k: usize| cont.opens.iter().rev().find(|o| o.t_begin <= k).map(|o| o.cfg.clone()).unwrap_or_else(|| cfg.clone());
                         // crash points: right after every Ack(ok) of the continuation, everything unsynced lost
